@@ -100,6 +100,16 @@ impl SmtString {
     }
 }
 
+// code point of x if it's a valid SMT-LIB character, REPLACEMENT_CHAR otherwise
+fn smt_char(x: char) -> u32 {
+    let x = x as u32;
+    if x <= MAX_CHAR {
+        x
+    } else {
+        REPLACEMENT_CHAR
+    }
+}
+
 impl AsRef<[u32]> for SmtString {
     fn as_ref(&self) -> &[u32] {
         self.s.as_ref()
@@ -118,7 +128,7 @@ impl AsRef<[u32]> for SmtString {
 /// ```
 impl From<&str> for SmtString {
     fn from(x: &str) -> Self {
-        SmtString::make(x.chars().map(|c| c as u32).collect())
+        SmtString::make(x.chars().map(smt_char).collect())
     }
 }
 
@@ -182,7 +192,7 @@ impl From<u32> for SmtString {
 ///
 impl From<char> for SmtString {
     fn from(x: char) -> SmtString {
-        SmtString::make(vec![x as u32])
+        SmtString::make(vec![smt_char(x)])
     }
 }
 
@@ -222,7 +232,7 @@ fn new_automaton() -> ParsingAutomaton {
 impl ParsingAutomaton {
     // add char x to the string so far
     fn push(&mut self, x: char) {
-        self.string_so_far.push(x as u32);
+        self.string_so_far.push(smt_char(x));
     }
 
     // add char x to the pending array
